@@ -42,6 +42,22 @@ var reference = func() map[string]bool {
 	return m
 }()
 
+//go:embed reference_globals.json
+var refGlobalsJSON []byte
+
+var referenceGlobals = func() map[string]bool {
+	var l []string
+	json.Unmarshal(refGlobalsJSON, &l)
+	m := map[string]bool{}
+	for _, k := range l {
+		m[k] = true
+	}
+	return m
+}()
+
+// KnownGlobal reports whether a package-level variable ("<pkgdir>:<Name>") exists in the pinned tree.
+func KnownGlobal(key string) bool { return referenceGlobals[key] }
+
 type edit struct {
 	start, end int // byte offsets in the file
 	text       string
